@@ -28,13 +28,17 @@ def distinct_points(rng, n, d3, used):
 def fam_soup(ctx, rng):
     d3 = rng.random() < 0.4
     nchains = rng.randint(1, 6)
+    small = rng.random() < 0.2        # the smallest soups: one chain of two or three segments
+    if small:
+        nchains = 1
+        d3 = rng.random() < 0.6
     used = set()
     chains = []
     for _ in range(nchains):
-        k = rng.randint(2, 7)
+        k = rng.choice([3, 3, 4]) if small else rng.randint(2, 7)
         pts = distinct_points(rng, k, d3, used)
         used |= set(pts)
-        closed = k >= 3 and rng.random() < 0.4
+        closed = k >= 3 and rng.random() < 0.4 and not small
         chains.append((pts, closed))
     segs = []
     for pts, closed in chains:
